@@ -23,6 +23,8 @@ func main() {
 		cmdDump(os.Args[2:])
 	case "check":
 		cmdCheck(os.Args[2:])
+	case "loopkeys":
+		cmdLoopKeys(os.Args[2:])
 	case "ledger":
 		cmdLedger(os.Args[2:])
 	case "replay":
@@ -142,3 +144,42 @@ func cmdSweep(args []string) {
 	fmt.Printf("%d named obligations, %d not discharged\n", len(names), bad)
 }
 
+
+// cmdLoopKeys prints, for every function that has loop clauses given by ordinal, the header-text
+// key of each of its loops (`text` or `text#k`), for rewriting the clauses to the stable form.
+func cmdLoopKeys(args []string) {
+	fs := flag.NewFlagSet("loopkeys", flag.ExitOnError)
+	repo := fs.String("repo", "/repo", "")
+	fs.Parse(args)
+	w := mustWorld(*repo)
+	for _, f := range w.findFuncs("") {
+		fc := w.contracts[funcKey(f)]
+		if fc == nil || len(fc.Loops) == 0 {
+			continue
+		}
+		heads, pos := loopHeaderTexts(f)
+		if heads == nil {
+			fmt.Printf("%s\tUNMAPPED\n", funcKey(f))
+			continue
+		}
+		for i, h := range heads {
+			// rank among equal headers in source order
+			same, rank := 0, 0
+			for j, h2 := range heads {
+				if h2 == h {
+					same++
+					if pos[j] < pos[i] {
+						rank++
+					}
+				}
+			}
+			key := h
+			if same > 1 {
+				key = fmt.Sprintf("%s#%d", h, rank+1)
+			} else {
+				// an exact key must not be shadowed by being a substring of nothing else: exact match wins anyway
+			}
+			fmt.Printf("%s\t%d\t%s\n", funcKey(f), i+1, key)
+		}
+	}
+}
